@@ -14,4 +14,5 @@ PROPERTY PoolOnlyGrows
 PROPERTY GmTouchesOnlyItsCache
 PROPERTY Precedence
 PROPERTY DeriveIgnoresCache
+PROPERTY CopiesCarryData
 CHECK_DEADLOCK FALSE
